@@ -151,6 +151,7 @@ def run(ctx):
     ctx.rule("C04.4", "RDLENGTH is back-patched with (bytes written after the placeholder) through usize_to_u16, big-endian, error propagated")
     ctx.rule("C04.5", "a compression pointer is only recorded for offsets < 2^14")
     ctx.rule("C04.6", "name_pointers is written only by memoise_name, called before the name's labels are written; a pointer ends the name")
+    ctx.rule("C04.8", "encoder-side constructors and the decoder agree on the name length limit (len <= DOMAINNAME_MAX_LEN)")
     ctx.rule("C04.7", "section counts go through usize_to_u16 and its error is propagated, not truncated")
     ctx.decline("equality decode(encode(m)) == m for every message value; agreement with an independent decoder")
 
@@ -509,4 +510,16 @@ def run(ctx):
     ctx.check(got == [("questions", "Question"), ("answers", "ResourceRecord"), ("authority", "ResourceRecord"), ("additional", "ResourceRecord")],
               "C04.7", "message:writer-sections", "each element of questions / answers / authority / additional is serialised, in that order",
               "writer sections: %s" % got, ms.loc())
+    # the decoder accepts exactly the names the constructors (and hence the encoder) can hold: both sides test
+    # `len <= DOMAINNAME_MAX_LEN` - a stricter decoder would reject a message this very code has produced
+    DN_ = T + "DomainName"
+    lim = lambda x: A.peel(x)[0] == "const" and (A.peel(x)[3] or {}).get("uneval") == T + "DOMAINNAME_MAX_LEN"
+    for key, what in ((IMPL(DES, "DomainName", "deserialise"), "wire decoder"), (DN_ + "::from_labels", "from_labels")):
+        g = prog.fn(key)
+        gr = A.Resolver(g)
+        gc = A.Conds(g, gr)
+        aggs = list(A.aggregates(g, DN_))
+        okl = bool(aggs) and all(gc.guarded(b, A.cmp_fact({"Le"}, lambda e: True, lim))[0] for b, i, st in aggs)
+        ctx.check(okl, "C04.8", "name-limit:%s" % what.replace(" ", "-"), "%s accepts a name iff len <= DOMAINNAME_MAX_LEN" % what,
+                  "%s does not accept exactly the names of up to DOMAINNAME_MAX_LEN octets (encoder and decoder disagree on a 255-octet name)" % what, g.loc())
 
